@@ -991,8 +991,193 @@ class C06(StoreProp):
         return out
 
 
+class C19(HistProp):
+    pid = 'C19'
+    quick_n = 150
+    thorough_n = 2500
+    rule = ('random mutation histories on fully hashed values; per mutation: every fresh pair node of the new backing lies on '
+            'the path to the written bottom node or below it (all other subtrees are the very same objects), merkle_hash '
+            'calls during the op plus the next hash_tree_root() <= path length + pairs of the inserted sub-value (bound '
+            'from the model), zero calls for a second hash_tree_root(), for copy() and for a view re-created from the hashed '
+            'backing; non-trivial = at least 2 ops')
+
+    def generate(self, g, tier, focus=None):
+        out = HistProp.generate(self, g, tier)
+        for _ in range(self.n(tier) // 3):
+            t, v = self.tv(g, tier)
+            out.append(show(['val', t, v]))
+        return out
+
+    def compare(self, case, py, mo, stats):
+        out = []
+        bump(stats, 'kinds', kind(case[1]))
+        if case[0] == 'val':
+            if py.get('p.cache') != '0/0/0':
+                out.append(F('prop', 'hashing repeated for second root / copy / view from hashed backing', py.get('p.cache'), '0/0/0'))
+            return out
+        if py.get('p.ctor') == 'err':
+            return [F('prop', 'ctor', 'err', 'valid value must be constructible')]
+        for i, op in enumerate(case[3:]):
+            p = '%d.' % i
+            bump(stats, 'ops', op[0])
+            if mo[p + 's'] == 'err' or py.get(p + 'p') != 'ok':
+                continue
+            bound = int(mo[p + 'bound'])
+            cost = int(py.get(p + 'pcost', '0'))
+            bump(stats, 'sizes', 'cost<=%d' % (8 * ((cost + 7) // 8)))
+            if cost > bound:
+                out.append(F('prop', 'hash operations after op %d %s exceed path bound' % (i, show(op)), str(cost), str(bound)))
+                break
+            if py.get(p + 'pagain') != '0':
+                out.append(F('prop', 'second hash_tree_root() re-hashed after op %d' % i, py.get(p + 'pagain'), '0'))
+                break
+            tgt = mo.get(p + 'tgt')
+            fresh = [int(x) for x in (py.get(p + 'pshare') or '').split(',') if x.strip().isdigit()]
+            if tgt not in (None, 'err'):
+                tb = bin(int(tgt))[2:]
+                bad = [gi for gi in fresh if not (tb.startswith(bin(gi)[2:]) or bin(gi)[2:].startswith(tb))]
+                if bad:
+                    out.append(F('prop', 'op %d %s rebuilt nodes off the changed path (gindices)' % (i, show(op)), str(bad[:10]), 'only ancestors/descendants of %s' % tgt))
+                    break
+                on_path = [gi for gi in fresh if tb.startswith(bin(gi)[2:])]
+                if len(on_path) > len(tb):
+                    out.append(F('prop', 'more fresh nodes than path positions', str(len(on_path)), str(len(tb))))
+                    break
+        return out
+
+
+class C17(Prop):
+    pid = 'C17'
+    quick_n = 250
+    thorough_n = 4000
+    rule = ('random values; random sets of tree positions replaced by bare summaries (summarize_into); then reads (whole '
+            'value, element, len, encoding, root) and mutation histories on the partial view and on the complete view: '
+            'root unchanged by summarising; every access equals the complete tree\'s result (roots after writes included) '
+            'or raises NavigationError / IndexError; python against the model on both trees; non-trivial = at least one '
+            'position summarised')
+
+    def generate(self, g, tier, focus=None):
+        r = g.rng
+        out = []
+        for _ in range(self.n(tier)):
+            t, v = self.tv(g, tier, mutable=True)
+            npos = r.choice([1, 1, 2, 3])
+            pos = ['pos'] + [r.choice([2, 3, r.randint(2, 15), r.randint(2, 63), r.randint(2, 1 << r.choice([3, 5, 8, 12]))]) for _ in range(npos)]
+            ops = []
+            hist, _ = g.ops(t, v, r.choice([2, 5, 10]))
+            for o in hist:
+                if r.random() < 0.4:
+                    ops.append(r.choice([['read'], ['len'], ['bytes'], ['root'], ['elem', r.randint(0, 6)], ['elem', r.randint(0, 40)]]))
+                ops.append(o)
+            ops.append(r.choice([['read'], ['bytes'], ['root']]))
+            out.append(show(['partial', t, v, pos] + ops))
+        return out
+
+    def nontrivial(self, c):
+        return '(pos' in c
+
+    def compare(self, case, py, mo, stats):
+        out = []
+        bump(stats, 'kinds', kind(case[1]))
+        if py.get('p.ctor') == 'err' or mo.get('i.ctor') == 'err':
+            return [F('prop', 'ctor', py.get('p.ctor'), mo.get('i.ctor'))]
+        bump(stats, 'sizes', 'summarised=%d' % (py.get('p.summ') or '').count('1'))
+        if py.get('p.root') != py.get('p.croot'):
+            out.append(F('prop', 'summarising changed the root', py.get('p.root'), py.get('p.croot')))
+        if py.get('p.summ') != mo.get('i.summ') or py.get('p.root') != mo.get('i.root'):
+            out.append(F('corr', 'summarize_into', py.get('p.summ'), mo.get('i.summ')))
+            return out
+        diverged = False
+        for i, op in enumerate(case[4:]):
+            p = '%d.' % i
+            a, c = py.get(p + 'p'), py.get(p + 'c')
+            ma, mc = mo.get(p + 'i'), mo.get(p + 'ic')
+            bump(stats, 'ops', op[0])
+            bump(stats, 'errs', (a or 'none').split(':')[0] + ('' if (a or '').startswith('ok') else ':' + (a or '').split(':')[-1]))
+            if a is None:
+                break
+            if a.startswith('ok'):
+                if not diverged and a != c:
+                    out.append(F('prop', 'partial tree returned a different result than the complete tree: op %d %s' % (i, show(op)), a, c))
+                    break
+            elif a not in ('err:nav', 'err:index'):
+                if not (c or '').startswith('err'):
+                    out.append(F('prop', 'access to a partial tree failed with another error: op %d %s' % (i, show(op)), a, 'err:nav|err:index'))
+                    break
+            if not a.startswith('ok') and (c or '').startswith('ok') and op[0] in ('set', 'app', 'pop', 'chg'):
+                diverged = True   # the complete view moved on; later results are compared with the model only
+            # correspondence with the model (which is proved to fail only where an excluded subtree is needed)
+            am = a if a.startswith('ok') else 'err'
+            if am != ma:
+                cls = 'prop' if (ma or '').startswith('ok') and not a.startswith('ok') and not diverged else 'corr'
+                key = ('access that does not need an excluded subtree failed: op %d %s' if cls == 'prop' else 'partial result differs from the model: op %d %s') % (i, show(op))
+                out.append(F(cls, key, a, ma))
+                break
+        return out
+
+
+class C20(Prop):
+    pid = 'C20'
+    quick_n = 200
+    thorough_n = 3000
+    rule = ('random values served by a root-keyed dict store (cases whose tree has a root that is both a leaf and a pair are '
+            'skipped and counted); reads and mutation histories on the view over the virtual backing and on the view over '
+            'the materialised backing: same results, same navigation errors, same roots after writes; per node each child / '
+            'leaf query reaches the store at most once; non-trivial = at least one op')
+
+    def generate(self, g, tier, focus=None):
+        r = g.rng
+        out = []
+        for _ in range(self.n(tier)):
+            t, v = self.tv(g, tier, mutable=r.random() < 0.8)
+            if is_basic(t):
+                continue
+            ops = [['read'], ['root']]
+            if kind(t) in ('list', 'vec', 'bl', 'bv', 'cont', 'union'):
+                hist, _ = g.ops(t, v, r.choice([2, 5, 12]), 0.1)
+                for o in hist:
+                    if r.random() < 0.4:
+                        ops.append(r.choice([['read'], ['len'], ['bytes'], ['root'], ['elem', r.randint(0, 6)], ['elem', r.randint(0, 300)]]))
+                    ops.append(o)
+                ops.append(['read'])
+            ops.append(['bytes'])
+            out.append(show(['virt', t, v] + ops))
+        return out
+
+    def nontrivial(self, c):
+        return True
+
+    def compare(self, case, py, mo, stats):
+        out = []
+        bump(stats, 'kinds', kind(case[1]))
+        if 'p.import' in py and py['p.import'] != 'ok':
+            return [F('prop', 'a virtual tree cannot be created', py['p.import'], 'ok')]
+        if py.get('p.skip'):
+            bump(stats, 'errs', 'skipped:ambiguous-root')
+            return out
+        if py.get('p.ctor') == 'err':
+            return [F('prop', 'ctor', 'err', '')]
+        r = (py.get('p.root') or '').split('/')
+        if len(r) != 2 or r[0] != 'ok:' + r[1]:
+            out.append(F('prop', 'root of the virtual backing', py.get('p.root'), ''))
+        for i, op in enumerate(case[3:]):
+            p = '%d.' % i
+            a, c = py.get(p + 'p'), py.get(p + 'c')
+            bump(stats, 'ops', op[0])
+            if a != c:
+                out.append(F('prop', 'virtual and materialised tree differ: op %d %s' % (i, show(op)), a, c))
+                break
+            cm = c if (c or '').startswith('ok') else 'err'
+            if cm != mo.get(p + 'ic'):
+                out.append(F('corr', 'materialised result differs from the model: op %d %s' % (i, show(op)), c, mo.get(p + 'ic')))
+                break
+        if int(py.get('p.maxask', '0')) > 1:
+            out.append(F('prop', 'a node asked the source for the same child more than once', py.get('p.maxask'), '<=1'))
+        return out
+
+
 REG = {}
-for cls in (C01, C02, C03, C04, C05, C06, C07, C08, C09, C10, C11, C12, C13, C14, C15, C16, C18):
+for cls in (C01, C02, C03, C04, C05, C06, C07, C08, C09, C10, C11, C12, C13, C14, C15, C16, C17, C18, C19, C20):
     REG[cls.pid] = cls
 
 
